@@ -59,6 +59,7 @@ def run(chk):
     chk.rule("R4", "after a union: visible = left sequence in all siblings; cache cols = visible left columns only")
     chk.rule("R5", "_union_impl refuses different back ends, grouped inputs, different visible names, incompatible types")
     chk.rule("R7", "the operands of the SQL compound select carry no ORDER BY (the union result is unordered; SQLite rejects ORDER BY / parentheses in an operand)")
+    chk.rule("R5v", "union validation interpreted on stub tables: different back ends, grouped inputs, different visible names (either direction), incompatible types are refused; equal name sets in any order are accepted")
     chk.rule("R6", "_union_impl checks both inputs for a required subquery before updating the cache")
 
     uc = sym.cls("Union")
@@ -293,6 +294,8 @@ def run(chk):
         chk.ob("R4", sib.cfgs[name].module, sib.cfgs[name].func, f"{name} Union: visible = {S.show(sel)}", sel == S.IN,
                f"{name}: visible columns after a union are {S.show(sel)}, documented: the left table's names and order")  # fmt: skip
 
+    _union_scenarios(chk, m)
+
     # ---- R5
     instances = [
         ("different back ends -> TypeError", "TypeError", ["backend"]),
@@ -323,3 +326,38 @@ def run(chk):
            len(cs) == 2 and sum(kwarg(c, "is_right") is not None for c in cs) == 1 and bool(upd) and max(c.lineno for c in cs) < min(u.lineno for u in upd)
            and "right_cache=right._cache" in norm(upd[0]),
            "_union_impl does not check both inputs for a required subquery before updating the cache with both caches")  # fmt: skip
+
+
+def _union_scenarios(chk, m):
+    """R5v: `_union_impl` interpreted (verbsim) on stub tables"""
+    from ..catalogue import DT
+    from ..rules.c17 import m_types_env
+    from ..verbsim import World
+
+    vb = chk.repo.mod("pipe.verbs")
+    f = vb.func("_union_impl")
+    I, S_, F = DT("Int64"), DT("String"), DT("Float64")
+    scen = [
+        ("same names, same order", dict(l=[("a", I), ("b", S_)], r=[("a", I), ("b", S_)]), ("accepted",)),
+        ("same names, other order", dict(l=[("a", I), ("b", S_)], r=[("b", S_), ("a", I)]), ("accepted",)),
+        ("compatible types (Int64 / Float64)", dict(l=[("a", I)], r=[("a", F)]), ("accepted",)),
+        ("right lacks a left column", dict(l=[("a", I), ("b", S_)], r=[("a", I)]), ("raise", "ValueError")),
+        ("right has an extra column", dict(l=[("a", I)], r=[("a", I), ("c", I)]), ("raise", "ValueError")),
+        ("disjoint names of equal count", dict(l=[("a", I)], r=[("z", I)]), ("raise", "ValueError")),
+        ("hidden columns differ (not compared)", dict(l=[("a", I)], r=[("a", I)], lh=[("h", I)], rh=[("k", S_)]), ("accepted",)),
+        ("left grouped", dict(l=[("a", I)], r=[("a", I)], lg=("a",)), ("raise", "ValueError")),
+        ("right grouped", dict(l=[("a", I)], r=[("a", I)], rg=("a",)), ("raise", "ValueError")),
+        ("different back ends", dict(l=[("a", I)], r=[("a", I)], rb="sqlite"), ("raise", "TypeError")),
+        ("incompatible types (Int64 / String)", dict(l=[("a", I)], r=[("a", S_)]), ("raise", "TypeError")),
+    ]
+    n = 0
+    for label, cfg, want in scen:
+        w = World(vb, dict(m_types_env(m)))
+        w.accept_on("Union")
+        left = w.table("l", cfg["l"], grouped=cfg.get("lg", ()), hidden=cfg.get("lh", ()))
+        right = w.table("r", cfg["r"], grouped=cfg.get("rg", ()), hidden=cfg.get("rh", ()), backend=cfg.get("rb", "polars"))
+        got = w.run(f, [left, right])
+        n += 1
+        chk.ob("R5v", vb, f, f"union: {label} -> {' '.join(want)}", tuple(got[:len(want)]) == want,
+               f"union validation, scenario `{label}`: expected {' '.join(want)}, the interpreted `_union_impl` gives {got[:3]}")  # fmt: skip
+    chk.floor("R5v", "union validation scenarios", n, 10)
